@@ -176,12 +176,17 @@ def membership_cases(rng, n):
     L = lambda t: lit_str(t, quote='"')
     cases = []
     for _ in range(n):
-        k = rng.choice([1, 2, 3, 4, 5, 8, 11, 12, 13, 16, 24])
-        kind = rng.choice(["int", "str", "mixed"])
+        k = rng.choice([1, 1, 2, 3, 4, 5, 8, 11, 12, 13, 16, 24, 31, 32, 33, 34, 48, 49, 50, 63, 64, 65, 66, 100, 129])
+        kind = rng.choice(["int", "str", "str", "mixed"])
         members = []
         for i in range(k):
             members.append(("lit", lit_int(i * 3) if kind == "int" or (kind == "mixed" and i % 2) else L("m%d" % i)))
         shape = rng.choice(["plain", "plain", "ident", "nested"])
+        if k == 1:
+            # one-member tuples whose member's own text contains a comma, a parenthesis, or is itself a tuple
+            members = [rng.choice([("lit", L("basic,trial")), ("lit", L(",")), ("lit", L("(1, 2)")), ("tuple", [("lit", lit_int(1)), ("lit", lit_int(2))]),
+                                   ("tuple", [("lit", lit_int(7))]), ("tuple", [("tuple", [("lit", L("a,b"))])]), ("lit", lit_int(3)), ("id", "other")])]
+            shape = "one"
         if shape == "ident":
             members[rng.randrange(k)] = ("id", "other")
         elif shape == "nested":
@@ -190,7 +195,18 @@ def membership_cases(rng, n):
         cond = ("if", ("cmp", ("id", "x"), op, ("tuple", members)), ("ret", [(L("T"), "1")]), ("else", ("ret", [(L("F"), "1")])))
         prog = Program("e", None, ["u"], cond, {"u": "any", "x": "any", "other": "any"})
         vals = [[1, 2], [], {"a": 1}, {}, {1, 2}, [0], (1, 2), [1, 2], bytearray(b"m0"), 0, "m0", 3, None, 1.5, ["m0"], {"m0"}, (0,)]
-        rng.shuffle(vals)
+        if k >= 31:
+            # members on both sides of every 8th / 16th / 32nd position, their concatenations and sums (what a renderer that wraps long displays could fuse)
+            for b in (8, 16, 31, 32, 33, 48, 64):
+                if b < k:
+                    a1, a2 = members[b - 1], members[b]
+                    v1 = a1[1].value if a1[0] == "lit" else None
+                    v2 = a2[1].value if a2[0] == "lit" else None
+                    vals[:0] = [v1, v2] + ([v1 + v2] if type(v1) is type(v2) and v1 is not None else [])
+        if k == 1:
+            vals[:0] = ["basic,trial", "basic", ",", (1, 2), 1, 2, (7,), 7, (("a,b",),), ("a,b",), "a,b", "(1, 2)", 3]
+        else:
+            rng.shuffle(vals)
         envs = [{"u": "u1", "x": v, "other": rng.choice([7, [1], "m1"])} for v in vals[:8]]
         cases.append({"prog": prog, "text": render(prog, rng, "plain"), "envs": envs})
     return cases
@@ -923,7 +939,12 @@ def spec_run(prog, env):
         return ("random", [v for v, w in zip(values, weights) if weight_fraction(w) > 0])
     if sum(weight_fraction(w) for w in weights) <= 0:
         return ("valueerror",)
-    h = published_position(prog.salt.value if prog.salt is not None else None, prog.splitters, env)
+    try:
+        h = published_position(prog.salt.value if prog.salt is not None else None, prog.splitters, env)
+    except ValueError:
+        return ("unprintable",)       # a ROUTED unit whose splitter value str() refuses (int beyond the digit limit): finding family K3
+    except UnicodeEncodeError:
+        return ("unencodable",)
     exact, allowed = spec_indices(weights, h)
     return ("group", [values[i] for i in sorted(allowed)], values[exact])
 
